@@ -179,12 +179,12 @@ def make_tls(rng, i, ctx):
                 q = project_obs(p)
                 q['chains'] = [c for c in q['chains'] if c['name'].startswith('pt')]
                 return q
-            cases.append({'id': cid, 'ev': 'same', 'what': 'total least squares with negligible x errors = ordinary fit', 'rtol': '1/100000',
+            cases.append({'id': cid, 'ev': 'same', 'what': 'total least squares with negligible x errors = ordinary fit', 'rtol': '1/10000',
                           'a': {'k': 'ok', 'p': [ychains(p) for p in res.fit_parameters]}, 'b': {'k': 'ok', 'p': [ychains(p) for p in ols.fit_parameters]}})
         except Exception as e:  # noqa: BLE001
             if 'did not converge' in str(e):
                 return 'discard'
-            cases.append({'id': cid, 'ev': 'same', 'what': 'tls vs ols', 'rtol': '1/100000', 'a': {'k': 'ok', 'p': []}, 'b': {'k': 'exc', 't': type(e).__name__}})
+            cases.append({'id': cid, 'ev': 'same', 'what': 'tls vs ols', 'rtol': '1/10000', 'a': {'k': 'ok', 'p': []}, 'b': {'k': 'exc', 't': type(e).__name__}})
     cases.append(tls_frame)
     ctx.nontrivial.add(('tls', name, negligible))
     return cases
